@@ -50,40 +50,105 @@ def _kwargs_get(e: ast.AST, key: str) -> bool:
             and isinstance(e.args[0], ast.Constant) and e.args[0].value == key)
 
 
-def check_packaging(prog: Program, res: Result, prop: str) -> None:
-    """Population.__init__ applies refine_agent to every agent with kwargs['task_type'];
-    OptimizationResult.__init__ applies refine_best_solution to best_solution; optimize() passes
-    task_type=task.minmax to all three packaging calls."""
-    # Population
+def _kwargs_take(e: ast.AST, key: str) -> bool:
+    """kwargs.get(key, ..) / kwargs.pop(key, ..) / kwargs[key]"""
+    if isinstance(e, ast.Call) and dotted(e.func) in ("kwargs.get", "kwargs.pop") and e.args \
+            and isinstance(e.args[0], ast.Constant) and e.args[0].value == key:
+        return True
+    return isinstance(e, ast.Subscript) and dotted(e.value) == "kwargs" and isinstance(e.slice, ast.Constant) and e.slice.value == key
+
+
+def population_agents_semantics(prog: Program) -> dict:
+    """What does Population(agents=A, task_type=tt) hold?  Per direction: ('identity' | 'refined' | None, fresh list?, why)."""
+    from .sgn import MAX, MIN, Unknown, eval_expr
     init = prog.func(f"{PKG}.models.Population.__init__")
-    ok, why = False, "agents are not rebuilt as [refine_agent(a, task_type) for a in kwargs.get('agents', ..)]"
-    stores = [n for n in own_nodes(init) if isinstance(n, ast.Assign) and len(n.targets) == 1
-              and isinstance(n.targets[0], ast.Subscript) and dotted(n.targets[0].value) == "kwargs"
-              and isinstance(n.targets[0].slice, ast.Constant) and n.targets[0].slice.value == "agents"]
+    out = {"init": init}
+    # the expression that becomes the `agents` field
+    expr, always_fresh = None, False
     sup = [n for n in own_nodes(init) if isinstance(n, ast.Call) and isinstance(n.func, ast.Attribute)
            and n.func.attr == "__init__" and isinstance(n.func.value, ast.Call) and dotted(n.func.value.func) == "super"]
-    if len(stores) == 1 and len(sup) == 1 and stores[0].lineno < sup[0].lineno:
-        v = origin(init.node, stores[0].value)
-        if isinstance(v, ast.ListComp) and len(v.generators) == 1 and not v.generators[0].ifs \
-                and isinstance(v.generators[0].target, ast.Name) and _kwargs_get(v.generators[0].iter, "agents"):
-            a = v.generators[0].target.id
-            e = v.elt
-            if isinstance(e, ast.Call) and isinstance(e.func, ast.Name) and e.func.id == "refine_agent" and len(e.args) == 2 \
-                    and isinstance(e.args[0], ast.Name) and e.args[0].id == a:
-                tt = origin(init.node, e.args[1])
-                if _kwargs_get(tt, "task_type"):
-                    dflt = tt.args[1] if len(tt.args) > 1 else None
-                    if dflt is not None and dotted(dflt) == "TaskType.MIN":
-                        ok = True
-                    else:
-                        why = "default direction of Population is not TaskType.MIN"
-                else:
-                    why = "direction passed to refine_agent is not kwargs.get('task_type', ..)"
-        if ok and not (sup[0].keywords and any(k.arg is None and dotted(k.value) == "kwargs" for k in sup[0].keywords)):
-            ok, why = False, "super().__init__ is not called with **kwargs"
-    res.ob(ok, f"{init.loc()} Population.__init__ refines every agent", "Population.__init__")
-    if not ok:
-        res.add(Finding(prop, f"{prop}.PKG-population", "models.Population.__init__::refine", init.loc(), why))
+    for n in own_nodes(init):
+        if isinstance(n, ast.Assign) and len(n.targets) == 1:
+            t = n.targets[0]
+            if isinstance(t, ast.Subscript) and dotted(t.value) == "kwargs" and isinstance(t.slice, ast.Constant) and t.slice.value == "agents":
+                if sup and n.lineno < sup[0].lineno and any(k.arg is None and dotted(k.value) == "kwargs" for k in sup[0].keywords):
+                    expr, always_fresh = n.value, True          # pydantic validates list[Agent]: a new list of the same models
+            elif dotted(t) == "self.agents" and sup and n.lineno > sup[0].lineno:
+                expr, always_fresh = n.value, False
+    if expr is None and sup:
+        for k in sup[0].keywords:
+            if k.arg == "agents":
+                expr, always_fresh = k.value, True
+    if expr is None:
+        for tt in (MIN, MAX):
+            out[tt] = (None, False, "the value stored as `agents` was not found")
+        return out
+    # direction variable
+    dir_names = set()
+    for n in own_nodes(init):
+        if isinstance(n, ast.Assign) and len(n.targets) == 1 and isinstance(n.targets[0], ast.Name) and _kwargs_take(n.value, "task_type"):
+            dflt = n.value.args[1] if isinstance(n.value, ast.Call) and len(n.value.args) > 1 else None
+            if dflt is not None and dotted(dflt) == "TaskType.MIN":
+                dir_names.add(n.targets[0].id)
+    for tt in (MIN, MAX):
+        try:
+            e = eval_expr(origin(init.node, expr), dir_names, tt)
+        except Unknown as exc:
+            out[tt] = (None, False, str(exc))
+            continue
+        e = origin(init.node, e)
+        if isinstance(e, ast.IfExp):
+            out[tt] = (None, False, f"`{norm(e.test)}` decides what is recorded")
+            continue
+        if _kwargs_take(e, "agents"):
+            out[tt] = ("identity", always_fresh, "")
+            continue
+        if isinstance(e, ast.ListComp) and len(e.generators) == 1 and not e.generators[0].ifs \
+                and isinstance(e.generators[0].target, ast.Name) and _kwargs_take(origin(init.node, e.generators[0].iter), "agents"):
+            a = e.generators[0].target.id
+            el = e.elt
+            if isinstance(el, ast.Name) and el.id == a:
+                out[tt] = ("identity", True, "")
+                continue
+            if isinstance(el, ast.Call) and isinstance(el.func, ast.Name) and el.func.id == "refine_agent" and len(el.args) == 2 \
+                    and isinstance(el.args[0], ast.Name) and el.args[0].id == a and isinstance(el.args[1], ast.Name) and el.args[1].id in dir_names:
+                out[tt] = ("refined", True, "")
+                continue
+            out[tt] = (None, True, f"elements are `{norm(el, 60)}`")
+            continue
+        out[tt] = (None, False, f"agents are `{norm(e, 70)}`")
+    return out
+
+
+def check_packaging(prog: Program, res: Result, prop: str, need_fresh: bool = False) -> None:
+    """Population(agents=, task_type=) holds, for MIN, the agents themselves (or refine_agent of them, which is the identity
+    for MIN) and, for MAX, refine_agent of every agent - unfiltered; with ``need_fresh`` (C15) the recorded list must be a
+    new list object in both directions.  OptimizationResult applies refine_best_solution to best_solution; optimize()
+    passes task_type=task.minmax to all three packaging calls."""
+    from .sgn import MAX, MIN
+    sem = population_agents_semantics(prog)
+    init = sem["init"]
+    rs = refine_signs(prog, f"{PKG}.models.Population", "refine_agent")
+    for tt in (MIN, MAX):
+        kind, fresh, why = sem[tt]
+        sign = None
+        if kind == "identity":
+            sign = +1
+        elif kind == "refined":
+            sign = rs["signs"][tt]
+        want = +1 if tt == MIN else -1
+        ok = sign == want
+        res.ob(ok, f"{init.loc()} Population under {tt}: agents {kind} (sign {sign}), fresh list={fresh}", f"Population.__init__:{tt}")
+        if not ok:
+            res.add(Finding(prop, f"{prop}.PKG-population", f"models.Population.__init__::refine::{tt}", init.loc(),
+                            f"under {tt} a recorded generation holds its agents with cost sign {sign} (expected "
+                            f"{'+' if want > 0 else '-'}): {why or kind}"))
+        if need_fresh:
+            res.ob(fresh, None, f"Population.__init__:{tt}:fresh")
+            if not fresh:
+                res.add(Finding(prop, f"{prop}.PKG-population-fresh-list", f"models.Population.__init__::fresh::{tt}", init.loc(),
+                                f"under {tt} a recorded generation stores the caller's list object itself: optimizers that extend, "
+                                f"pop or assign slots of self._population in place rewrite generations that were already recorded"))
 
     # OptimizationResult
     init = prog.func(f"{PKG}.models.OptimizationResult.__init__")
